@@ -1,5 +1,5 @@
 """Named history generators used by campaign shards: name -> fn(machine, rng, job) -> (oplist, meta)."""
-from .drivers import history, funcs, twins, textfam
+from .drivers import history, funcs, twins, textfam, spellings
 
 
 def gen_history(m, rng, job):
@@ -10,4 +10,5 @@ def gen_history(m, rng, job):
 
 GENERATORS = {'history': gen_history, 'render_family': history.gen_render_family, 'parse_input': history.gen_parse_input,
               'pgs': funcs.gen_pgs, 's2d': funcs.gen_s2d, 'pcs': funcs.gen_pcs, 'pcs_boundary': funcs.gen_pcs_boundary, 'helper': funcs.gen_helper,
-              'twins': twins.gen_twins, 'text_family': textfam.gen_text_family, 'aset': funcs.gen_aset, 'aset_extra': funcs.gen_aset_extra}
+              'twins': twins.gen_twins, 'sp_names': spellings.gen_names, 'sp_codes': spellings.gen_codes,
+              'sp_colours': spellings.gen_colours, 'sp_mix': spellings.gen_mixtures, 'text_family': textfam.gen_text_family, 'aset': funcs.gen_aset, 'aset_extra': funcs.gen_aset_extra}
